@@ -23,6 +23,53 @@ CHECKS = {
             "float32 eager CPU; tolerance 1e-4*max(1,|w|,|bounds|); NumPy reference model of the "
             "inequalities is trusted; nothing outside the alphabet images / ranks>3 is covered",
             "3/C01"),
+    "C02": (EX,
+            "bounded exhaustive enumeration: basis kernels packed as units x full cartesian input grid "
+            "through the real Lattice layer, compared with an independent interpolation model",
+            "For 11 (thorough 18) lattice shapes incl. the all-2 fast path, mixed sizes, runs of equal "
+            "sizes and rank>=8 (matmul path), both schemes, tensor/list inputs, clip on/off, extra "
+            "batch dim, units 1/2/n: the complete interpolation-weight matrix on the full grid equals "
+            "the reference; partition of unity, non-negativity, exact vertices, scheme agreement on "
+            "vertices/edges; inheritance clauses on real outputs for ALL monotone / Edgeworth-feasible "
+            "words of {-1,0,1}^n.",
+            "float32; linearity in the kernel (by construction of the code) reduces all kernels to a "
+            "basis plus separately checked units=1 kernels; ranks>9 / sizes>5 not covered",
+            "3/C02"),
+    "C04": (EX,
+            "bounded exhaustive enumeration of all kernel words x all small PWL configurations "
+            "through the real PWLCalibrationConstraints / layer constraint",
+            "Keypoint vectors (uniform/non-uniform, 2-5 points) x monotonicity x convexity x 5 bound "
+            "modes x clamps x cyclic x iterations {0,1,2,8,(32,100)} x {constraint object, layer}: ALL "
+            "words of {-2,-1,0,.5,1,3}^n (+images) are projected and judged (exact monotone sign, "
+            "bounds, convexity, clamps, unchanged-if-feasible); NaiveBoundsConstraints for the missing output.",
+            "float32; tolerated relaxations of the property are not checked; kernels outside the alphabet images not covered",
+            "3/C04"),
+    "C05": (EX,
+            "bounded exhaustive enumeration of calibrator configurations x basis/word kernels x input "
+            "points against np.interp / row-lookup reference",
+            "PWLCalibration: keypoint vectors x cyclic x 5 missing modes x shared/per-unit inputs x "
+            "split, every keypoint/midpoint/outside/missing input; learned interior keypoints for all "
+            "logit words; keypoints_inputs/outputs agreement. CategoricalCalibration: buckets x units x "
+            "default value x layouts x dtypes x all category tuples.",
+            "float32 relative tolerance 1e-4; linear in the kernel, so basis + word kernels decide all kernels",
+            "3/C05"),
+    "C06": (EX,
+            "bounded exhaustive enumeration: all acyclic dominance/ordering graphs on <=3(4) nodes x "
+            "all monotonicity vectors x norms x all weight words through the real constraints",
+            "Linear: every monotonicity vector, every DAG of monotonic dominance on increasing inputs, "
+            "every DAG of range dominance on same-direction inputs (3 range assignments), norm "
+            "{None,1,2}; Categorical: every DAG of pairs on 2-4 buckets x bounds; weights = all words of "
+            "{-2,-1,0,.5,1,3}^n + images down to 1e-9 (numerically-zero clause).",
+            "float32; <=4 inputs/buckets",
+            "3/C06"),
+    "C20": (EX,
+            "bounded exhaustive enumeration of Linear layer configurations x all kernel words x input "
+            "grid against the clipped-affine reference; consequences on weights produced by the real constraint",
+            "dims 1-3 x units 1-3 x every per-input bound pattern x bias on/off x ALL words of {-1,0,1}^n "
+            "x grid of inputs inside/on/far outside the bounds; C06 configurations' constrained weights "
+            "loaded into the real layer: monotone for all ordered grid pairs, dominance effects, weighted average.",
+            "float32 relative tolerance 1e-4",
+            "3/C20"),
 }
 
 NOT_YET = {}
